@@ -113,6 +113,19 @@ def run(chk):
         yield ('2.1:observables:network-traffic:src_port=0', stix2.v21.NetworkTraffic, {'protocols': ['tcp'], 'src_ref': 'ipv4-addr--' + G.UUID, 'src_port': 0})
         yield ('2.1:observables:file:hashes-custom-first', stix2.v21.File, {'hashes': {'SHA-512': 'a' * 128, 'SHA-256': 'b' * 64}})
         yield ('2.1:observables:file:hashes-ssdeep-only', stix2.v21.File, {'hashes': {'SSDEEP': 'abc', 'TLSH': 'a' * 70}})
+        # hash dictionaries: the "one hash" rule applies to the object's own top-level `hashes` only -- every order of the four preferred algorithms there;
+        # `hashes` dictionaries nested inside a contributing value (PE sections / optional header, NTFS streams, unregistered extension content) contribute whole
+        H4 = {'MD5': 'a' * 32, 'SHA-1': 'b' * 40, 'SHA-256': 'c' * 64, 'SHA-512': 'd' * 128}
+        for n in (2, 3, 4):
+            for perm in itertools.permutations(H4, n):
+                if n == 4 and perm[0] == 'MD5': continue
+                yield (f'2.1:observables:file:top-level hashes listed as {"/".join(perm)}', stix2.v21.File, {'hashes': {k: H4[k] for k in perm}})
+        yield ('2.1:observables:x509-certificate:hashes listed SHA-256 first', stix2.v21.X509Certificate, {'hashes': {'SHA-256': 'c' * 64, 'MD5': 'a' * 32}})
+        for variant, low in (('x', 'c' * 64), ('y', 'e' * 64)):        # two objects that differ only in a lower-priority hash of a nested dictionary
+            yield (f'2.1:observables:file:pe section with two hashes ({variant})', stix2.v21.File, {'name': 'f', 'extensions': {'windows-pebinary-ext': {'pe_type': 'exe', 'sections': [{'name': 's', 'hashes': {'MD5': 'a' * 32, 'SHA-256': low}}]}}})
+            yield (f'2.1:observables:file:pe optional header with two hashes ({variant})', stix2.v21.File, {'name': 'f', 'extensions': {'windows-pebinary-ext': {'pe_type': 'exe', 'optional_header': {'hashes': {'SHA-1': 'b' * 40, 'SHA-256': low}}}}})
+            yield (f'2.1:observables:file:ntfs stream with two hashes ({variant})', stix2.v21.File, {'name': 'f', 'extensions': {'ntfs-ext': {'alternate_data_streams': [{'name': 's', 'hashes': {'SHA-256': low, 'MD5': 'a' * 32}}]}}})
+            yield (f'2.1:observables:file:unregistered extension holding a hashes dictionary ({variant})', stix2.v21.File, {'name': 'f', 'extensions': {EXTD: {'extension_type': 'property-extension', 'hashes': {'MD5': 'a' * 32, 'SHA-256': low}}}})
 
     def check(case):
         label, cls, kw = case
